@@ -2,6 +2,7 @@ package main
 
 import (
 	"fmt"
+	"math/big"
 	"go/ast"
 	"go/parser"
 	"go/token"
@@ -20,6 +21,11 @@ func (e *bEngine) contractFor(fn *ssa.Function) (*Contract, string) {
 	key := frameKey(fn)
 	if key == "" {
 		return nil, ""
+	}
+	if fn.Synthetic != "" && !strings.Contains(fn.Synthetic, "instance") {
+		// wrappers of promoted methods, bound-method closures and thunks are executed inline: they
+		// call the declared method, which is where the contract applies
+		return nil, key
 	}
 	if c, ok := e.prog.AContracts[key]; ok {
 		return c, key
@@ -120,6 +126,14 @@ func (e *bEngine) applyContract(st *bState, con *Contract, callee *ssa.Function,
 		e.havocPoly(st, e.env(st, st, bind, nil, con, pkg).Eval(x), short)
 	}
 	e.applyDraws(st, con, bind, pkg)
+	e.applyHavocs(st, con, bind, pkg, func(name string) types.Type {
+		for _, p := range callee.Params {
+			if p.Name() == name {
+				return p.Type()
+			}
+		}
+		return nil
+	})
 	// results
 	var res bVal
 	rs := callee.Signature.Results()
@@ -143,10 +157,73 @@ func (e *bEngine) applyContract(st *bState, con *Contract, callee *ssa.Function,
 		res = tuple
 	}
 	for _, en := range con.Ensures {
-		g := e.env(st, pre, b2, bind, con, pkg).Term(en.Expr)
+		env := e.env(st, pre, b2, bind, con, pkg)
+		env.callee = true
+		g := env.Term(en.Expr)
 		st.assume(g)
 	}
 	return res
+}
+
+// havoc <pointer parameter>: the pointee receives a fresh symbolic value of its type.
+// gset <ghost>(<expr>) = <expr> | *: a ghost counter of an object is set (or forgotten).
+func (e *bEngine) applyHavocs(st *bState, con *Contract, bind map[string]bVal, pkg string, paramType func(string) types.Type) {
+	for _, s := range con.Raw["havoc"] {
+		for _, name := range strings.Fields(strings.ReplaceAll(s, ",", " ")) {
+			v, ok := bind[name]
+			if !ok {
+				panic(verr("%s: havoc %s: not a parameter", con.File, name))
+			}
+			p, isPtr := v.(bPtr)
+			pt := paramType(name)
+			if !isPtr || pt == nil {
+				panic(verr("%s: havoc %s: not a pointer parameter", con.File, name))
+			}
+			if p.obj == 0 {
+				continue
+			}
+			p = e.nonNil(st, p)
+			pp, ok := pt.Underlying().(*types.Pointer)
+			if !ok {
+				panic(verr("%s: havoc %s: not a pointer parameter", con.File, name))
+			}
+			et := pp.Elem()
+			if o := e.obj(st, p.obj); p.path == "" && !o.arr && o.typ != nil {
+				// a scalar written through a reinterpreting pointer cast (*int as *uint64): the
+				// object keeps its own type, every bit pattern of it is possible
+				if _, isBasic := o.typ.Underlying().(*types.Basic); isBasic {
+					et = o.typ
+				}
+			}
+			e.storeAt(st, p, e.symVal(st, e.freshName("hv."+name), et))
+		}
+	}
+	for _, s := range con.Raw["gset"] {
+		kv := strings.SplitN(s, "=", 2)
+		if len(kv) != 2 {
+			panic(verr("%s: gset expects: ghost(expr) = expr|*", con.File))
+		}
+		lx, err := parser.ParseExpr(strings.TrimSpace(kv[0]))
+		call, isCall := lx.(*ast.CallExpr)
+		if err != nil || !isCall || len(call.Args) != 1 {
+			panic(verr("%s: bad gset clause %q", con.File, s))
+		}
+		g := exprString(call.Fun)
+		env := e.env(st, st, bind, nil, con, pkg)
+		id := ConstI(int64(e.objectIdentity(st, env.Eval(call.Args[0]), call.Args[0])))
+		var val *Term
+		if strings.TrimSpace(kv[1]) == "*" {
+			val = Var(e.freshName(g), SInt)
+			st.assume(Le(ConstI(0), val))
+		} else {
+			rx, err := parser.ParseExpr(strings.TrimSpace(kv[1]))
+			if err != nil {
+				panic(verr("%s: bad gset clause %q", con.File, s))
+			}
+			val = env.Term(rx)
+		}
+		st.ghost[g] = Store(e.ghostArr(st, g), id, val)
+	}
 }
 
 func parseWlog(s, where string) (cond, guard ast.Expr) {
@@ -242,8 +319,8 @@ func (e *bEngine) runAll(init *bState, atReturn func(st *bState, res bVal)) {
 		st := work[len(work)-1]
 		work = work[:len(work)-1]
 		e.paths++
-		if e.paths > bMaxPaths {
-			panic(verr("more than %d paths", bMaxPaths))
+		if e.paths > bMaxPaths && e.paths > e.maxPaths {
+			panic(verr("more than %d paths", max(bMaxPaths, e.maxPaths)))
 		}
 		e.runPath(st, &work, atReturn)
 	}
@@ -325,6 +402,7 @@ func (e *bEngine) runPath(st *bState, work *[]*bState, atReturn func(st *bState,
 			if p.obj == 0 {
 				panic(bPathEnd{"nil pointer dereference"})
 			}
+			p = e.nonNil(st, p)
 			fr.vals[x] = bPtr{obj: p.obj, path: p.path + "/" + fieldName(x.X.Type(), x.Field)}
 		case *ssa.Field:
 			sv, ok := e.get(st, fr, x.X).(*bStruct)
@@ -353,6 +431,7 @@ func (e *bEngine) runPath(st *bState, work *[]*bState, atReturn func(st *bState,
 				}
 				fr.vals[x] = bPtr{obj: b.arr, path: "/" + key}
 			case bPtr:
+				b = e.nonNil(st, b)
 				fr.vals[x] = bPtr{obj: b.obj, path: b.path + "/" + key}
 			default:
 				panic(verr("IndexAddr on %s", describeVal(b)))
@@ -373,6 +452,7 @@ func (e *bEngine) runPath(st *bState, work *[]*bState, atReturn func(st *bState,
 				if !ok {
 					panic(verr("load from %s", describeVal(v)))
 				}
+				p = e.nonNil(st, p)
 				fr.vals[x] = cloneVal(e.loadAt(st, p))
 			case token.NOT:
 				t, _ := asScalar(v)
@@ -394,6 +474,7 @@ func (e *bEngine) runPath(st *bState, work *[]*bState, atReturn func(st *bState,
 			if !ok {
 				panic(verr("store to %s", describeVal(e.get(st, fr, x.Addr))))
 			}
+			p = e.nonNil(st, p)
 			e.storeAt(st, p, e.get(st, fr, x.Val))
 		case *ssa.ChangeType:
 			fr.vals[x] = e.get(st, fr, x.X)
@@ -432,6 +513,9 @@ func (e *bEngine) runPath(st *bState, work *[]*bState, atReturn func(st *bState,
 				n := b
 				if x.High != nil {
 					hi, _ := asScalar(e.get(st, fr, x.High))
+					if e.safety && hi != nil && b.cap != nil {
+						e.oblige(st, "slice-bounds", fn.Name(), And(Le(ConstI(0), hi), Le(hi, b.cap)), e.fp.fset.Position(x.Pos()).String())
+					}
 					n.len = hi
 				}
 				fr.vals[x] = n
@@ -441,7 +525,7 @@ func (e *bEngine) runPath(st *bState, work *[]*bState, atReturn func(st *bState,
 				if !o.arr || b.path != "" || !isArr {
 					panic(verr("Slice of %s", describeVal(v)))
 				}
-				n := bSlice{arr: b.obj, len: ConstI(at.Len())}
+				n := bSlice{arr: b.obj, len: ConstI(at.Len()), cap: ConstI(at.Len())}
 				if x.High != nil {
 					hi, _ := asScalar(e.get(st, fr, x.High))
 					n.len = hi
@@ -456,7 +540,20 @@ func (e *bEngine) runPath(st *bState, work *[]*bState, atReturn func(st *bState,
 			et := x.Type().Underlying().(*types.Slice).Elem()
 			st.objs[id] = &bObject{id: id, typ: et, arr: true, elems: map[string]bVal{}}
 			ln, _ := asScalar(e.get(st, fr, x.Len))
-			fr.vals[x] = bSlice{arr: id, len: ln}
+			cp := ln
+			if x.Cap != nil {
+				if c, ok := asScalar(e.get(st, fr, x.Cap)); ok {
+					cp = c
+				}
+			}
+			if e.safety && ln != nil {
+				// make panics on a negative length; a length taken from the input must also be bounded
+				// by something the input has been checked against (allocation bound)
+				e.oblige(st, "make-len", fn.Name(), Le(ConstI(0), ln), e.fp.fset.Position(x.Pos()).String())
+				e.oblige(st, "alloc-bounded", fn.Name(), Le(ln, Const(e.allocMax)), e.fp.fset.Position(x.Pos()).String())
+				st.assume(Le(ConstI(0), ln))
+			}
+			fr.vals[x] = bSlice{arr: id, len: ln, cap: cp}
 		case *ssa.MakeMap, *ssa.MakeChan:
 			fr.vals[x.(ssa.Value)] = bOpaque{typ: x.(ssa.Value).Type(), name: "make"}
 		case *ssa.Lookup:
@@ -494,10 +591,10 @@ func (e *bEngine) runPath(st *bState, work *[]*bState, atReturn func(st *bState,
 				tgt(st, 1)
 			default:
 				other := st.clone()
-				other.assume(Not(c))
+				other.assumeBranch(Not(c))
 				tgt(other, 1)
 				*work = append(*work, other)
-				st.assume(c)
+				st.assumeBranch(c)
 				tgt(st, 0)
 			}
 		case *ssa.Return:
@@ -640,10 +737,28 @@ func (e *bEngine) doCall(st *bState, fr *bFrame, ci ssa.CallInstruction) {
 		case "len", "cap":
 			switch a := args[0].(type) {
 			case bSlice:
-				setRes(bScalar{st.norm(a.len)})
+				if b.Name() == "cap" {
+					if a.cap != nil {
+						setRes(bScalar{st.norm(a.cap)})
+					} else {
+						setRes(freshRes("cap"))
+					}
+				} else {
+					setRes(bScalar{st.norm(a.len)})
+				}
 			case *bStruct:
 				if at, ok := a.typ.Underlying().(*types.Array); ok {
 					setRes(bScalar{ConstI(at.Len())})
+				} else {
+					setRes(freshRes("len"))
+				}
+			case bOpaque:
+				if nt, ok := opaqueNil(a); ok && a.name != "make" {
+					// the length of an input map is a symbolic integer named after its access path
+					ln := Var(a.name+".len", SInt)
+					st.assume(Le(ConstI(0), ln))
+					st.assume(Implies(nt, Eq(ln, ConstI(0))))
+					setRes(bScalar{ln})
 				} else {
 					setRes(freshRes("len"))
 				}
@@ -685,8 +800,15 @@ func (e *bEngine) doCall(st *bState, fr *bFrame, ci ssa.CallInstruction) {
 		}
 		if callee == nil {
 			// contract on the interface method
+			var keys []string
 			if named, ok := c.Value.Type().(*types.Named); ok && named.Obj().Pkg() != nil {
-				key := named.Obj().Pkg().Path() + "." + named.Obj().Name() + "." + c.Method.Name()
+				keys = append(keys, named.Obj().Pkg().Path()+"."+named.Obj().Name()+"."+c.Method.Name())
+			}
+			// the interface that declares the method (io.Writer for buffer.Writer.Write)
+			if fnm := c.Method.FullName(); strings.HasPrefix(fnm, "(") {
+				keys = append(keys, strings.Replace(strings.TrimPrefix(fnm, "("), ").", ".", 1))
+			}
+			for _, key := range keys {
 				if con, ok := e.prog.AContracts[key]; ok {
 					setRes(e.applyIfaceContract(st, con, key, c.Method, append([]bVal{recv}, args...), at))
 					return
@@ -752,7 +874,7 @@ func frameKeyOrName(f *ssa.Function) string {
 // polynomial storage: every ghost attribute is forgotten.
 func (e *bEngine) unknownCall(st *bState, what, at string) {
 	e.note("unknown callee (" + what + "): all ghost state havocked")
-	for _, g := range []string{"val", "mexp", "ntt", "uni", "draws"} {
+	for _, g := range []string{"val", "mexp", "ntt", "uni", "draws", "pending"} {
 		st.ghost[g] = Var(e.freshName("G."+g), SArr)
 	}
 }
@@ -782,6 +904,14 @@ func (e *bEngine) applyIfaceContract(st *bState, con *Contract, key string, m *t
 		e.havocPoly(st, e.env(st, st, bind, nil, con, pkg).Eval(x), short)
 	}
 	e.applyDraws(st, con, bind, pkg)
+	e.applyHavocs(st, con, bind, pkg, func(name string) types.Type {
+		for i := 0; i < sig.Params().Len(); i++ {
+			if sig.Params().At(i).Name() == name {
+				return sig.Params().At(i).Type()
+			}
+		}
+		return nil
+	})
 	var res bVal
 	b2 := map[string]bVal{}
 	for k, v := range bind {
@@ -806,7 +936,9 @@ func (e *bEngine) applyIfaceContract(st *bState, con *Contract, key string, m *t
 		res = tuple
 	}
 	for _, en := range con.Ensures {
-		st.assume(e.env(st, pre, b2, bind, con, pkg).Term(en.Expr))
+		env := e.env(st, pre, b2, bind, con, pkg)
+		env.callee = true
+		st.assume(env.Term(en.Expr))
 	}
 	return res
 }
@@ -872,17 +1004,66 @@ func VerifyAbstract(prog *Program, fp *FrameProg, key string) *bResult {
 		res.Trusted = true
 		return res
 	}
-	fn := fns[0]
-	res.File = fp.fset.Position(fn.Pos()).String()
+	// a generic function is verified through each of its instances
+	var insts []*ssa.Function
+	for _, f := range fns {
+		if len(f.TypeArgs()) > 0 {
+			insts = append(insts, f)
+		}
+	}
+	if only := con.Raw["only"]; len(only) > 0 {
+		// only <type argument>: the contract is about these instances of a generic function
+		var keep []*ssa.Function
+		for _, f := range insts {
+			var ta []string
+			for _, t := range f.TypeArgs() {
+				ta = append(ta, bTypeName(t))
+			}
+			for _, o := range strings.Fields(strings.Join(only, " ")) {
+				if strings.Join(ta, ",") == o {
+					keep = append(keep, f)
+				}
+			}
+		}
+		if len(keep) == 0 {
+			res.Err = "contract-target: no instance " + strings.Join(only, " ") + " of the generic function in the source tree"
+			return res
+		}
+		insts = keep
+	}
+	if len(insts) == 0 {
+		insts = fns[:1]
+	}
+	sort.Slice(insts, func(i, j int) bool { return insts[i].String() < insts[j].String() })
+	res.File = fp.fset.Position(insts[0].Pos()).String()
 	cases := con.Raw["case"]
 	if len(cases) == 0 {
 		cases = []string{""}
 	}
-	for ci, cx := range cases {
+	type job struct {
+		fn *ssa.Function
+		ci int
+		cx string
+	}
+	var jobs []job
+	for _, f := range insts {
+		for ci, cx := range cases {
+			jobs = append(jobs, job{f, ci, cx})
+		}
+	}
+	for _, jb := range jobs {
+		fn, ci, cx := jb.fn, jb.ci, jb.cx
 		e := &bEngine{prog: prog, fp: fp, reg: newRegistry(), fn: fn, con: con, name: res.Name, counters: map[string]int{},
 			notes: map[string]bool{}, maxUnwind: 4, inlined: map[string]bool{}, ended: res.Ended, dyn: map[string]types.Type{}}
+		if len(insts) > 1 {
+			var ta []string
+			for _, t := range fn.TypeArgs() {
+				ta = append(ta, bTypeName(t))
+			}
+			e.name = fmt.Sprintf("%s[%s]", res.Name, strings.Join(ta, ","))
+		}
 		if len(cases) > 1 {
-			e.name = fmt.Sprintf("%s[case%d]", res.Name, ci)
+			e.name = fmt.Sprintf("%s[case%d]", e.name, ci)
 		}
 		func() {
 			defer func() {
@@ -922,6 +1103,22 @@ func (e *bEngine) verify(caseSpec string) {
 	}
 	for _, s := range con.Raw["unwind"] {
 		fmt.Sscanf(s, "%d", &e.maxUnwind)
+	}
+	for _, s := range con.Raw["maxpaths"] {
+		fmt.Sscanf(s, "%d", &e.maxPaths)
+	}
+	e.safety = len(con.Raw["safety"]) > 0
+	e.nilable = len(con.Raw["nilable"]) > 0
+	e.allocMax = pow2(32)
+	for _, s := range con.Raw["safety"] {
+		// safety allocmax=<n>: the largest element count a single make may be asked for
+		for _, f := range strings.Fields(s) {
+			if strings.HasPrefix(f, "allocmax=") {
+				if v, ok := new(big.Int).SetString(strings.TrimPrefix(f, "allocmax="), 0); ok {
+					e.allocMax = v
+				}
+			}
+		}
 	}
 	for _, s := range con.Raw["dyn"] {
 		f := strings.Fields(s)
